@@ -17,7 +17,7 @@ var schemeEco = map[string]string{
 var schemeNames = []string{"alpine", "cargo", "deb", "gem", "generic", "golang", "maven", "npm", "nuget", "pypi", "rpm"}
 
 func versContains(r, v string) (ok bool, isErr bool, pan string) {
-	pan = guard(func() {
+	pan = guardDesc(func() string { return fmt.Sprintf("vers.Contains(%q, %q)", r, v) }, func() {
 		b, err := vers.Contains(r, v)
 		ok = b
 		isErr = err != nil
